@@ -114,11 +114,19 @@ def evaluate_pair(ctx, pdb2sql, case, rep, prop='C07'):
     reqs, calls = [], []
     for c in case['calls']:
         route, method, enforce, check = c['route'], c['method'], c['enforce'], c.get('check', True)
-        res, mats = SC.call(pdb2sql, route, dp, rp, enforce, method=method, check=check,
+        # zone handling of the call: computed in memory (default), written to a zone file that is absent, or read
+        # back from the file a previous call of this pair wrote; the value must be the definition's in all three
+        zf = None
+        if c.get('zone') in ('written', 'read') and route != 'lrmsd_sql':
+            zf = os.path.join(ctx.scratch, 'zone_c07' + ('.izone' if route.startswith('irmsd') else '.lzone'))
+            if c['zone'] == 'written' and os.path.exists(zf):
+                os.remove(zf)
+        res, mats = SC.call(pdb2sql, route, dp, rp, enforce, method=method, check=check, zonefile=zf,
                             cutoff=(cutoff if route.startswith('irmsd') else None))
         R = mats[-1] if mats else None
         zone = izone if route.startswith('irmsd') else lzone
-        reqs.append(SC.model_request(route, R, zone, dec_t, ref_t, enforce, check=check, cutoff=cutoff))
+        reqs.append(SC.model_request(route, R, zone, dec_t, ref_t, enforce, check=check, cutoff=cutoff,
+                                     zone_from_file=(zf is not None and route == 'irmsd_sql')))
         calls.append((c, res))
     mres = ctx.model.batch(reqs)
     if len(rep.model_reqs) < 24:
@@ -127,7 +135,7 @@ def evaluate_pair(ctx, pdb2sql, case, rep, prop='C07'):
         specval = spec_i if c['route'].startswith('irmsd') else spec_l
         verdict = judge(c, res, m, specval, dec_t, ref_t, izone if c['route'].startswith('irmsd') else lzone)
         out.append((c, res, m, specval, verdict))
-    for p in (rp, dp):
+    for p in (rp, dp, os.path.join(ctx.scratch, 'zone_c07.izone'), os.path.join(ctx.scratch, 'zone_c07.lzone')):
         try: os.remove(p)
         except OSError: pass
     return out
@@ -182,6 +190,9 @@ def default_calls(rng, n=6):
             calls.append({'route': route, 'method': method, 'enforce': False})
     extra = [{'route': rng.choice(ROUTES), 'method': rng.choice(['svd', 'quaternion']), 'enforce': True} for _ in range(2)]
     extra.append({'route': rng.choice(['irmsd_fast', 'lrmsd_fast']), 'method': 'svd', 'enforce': False, 'check': False})
+    r = rng.choice(['irmsd_fast', 'irmsd_fast', 'lrmsd_fast'])      # (the SQL i-RMSD only reads zone files)
+    extra.append({'route': r, 'method': 'svd', 'enforce': False, 'zone': 'written'})
+    extra.append({'route': r if r != 'irmsd_fast' or rng.random() < 0.5 else 'irmsd_sql', 'method': 'svd', 'enforce': False, 'zone': 'read'})
     return calls + extra
 
 def record(rep, case, feats, results, nontrivial):
@@ -202,7 +213,7 @@ def record(rep, case, feats, results, nontrivial):
 def explore(ctx, tier, rng, search=False):
     rep = Report()
     pdb2sql = import_impl()
-    n = 420 if (tier == 'thorough' or search) else 36
+    n = (150 if search else 300) if (tier == 'thorough' or search) else 30
     cdir = os.path.join(VERIF, 'corpus', ID)
     cases = []
     if os.path.isdir(cdir):
@@ -222,7 +233,7 @@ def explore(ctx, tier, rng, search=False):
             continue
         rep.evaluations += max(0, len(results) - 1)
         record(rep, case, feats, results, bool(feats & {'rigid-motion', 'ligand-displaced', 'decoy-incomplete', 'ref-incomplete', 'negative-numbering', 'permuted'}))
-    rep.input_distribution = {'pairs': n, 'calls_per_pair': 11, 'cutoffs': [3.5, 5, 8, 10, 12]}
+    rep.input_distribution = {'pairs': n, 'calls_per_pair': 13, 'cutoffs': [3.5, 5, 8, 10, 12]}
     return rep
 
 def replay(ctx, case):
